@@ -49,6 +49,7 @@ type E struct {
 	depth     int
 	sawAbsorb bool           // a cycle was absorbed by a default or a resolver during this evaluation
 	evalCount map[string]int // how often each root setting was evaluated during this evaluation
+	evalLog   map[string][]string // the outcomes of those evaluations, in order
 	force     bool           // evaluate the contents of containers reached through references
 }
 
@@ -445,7 +446,9 @@ func (e *E) evalName(n Name) Outcome {
 			return Outcome{V: v}
 		}
 		e.evalCount[path]++
-		return e.evalSetting(s)
+		o := e.evalSetting(s)
+		e.logEval(path, o)
+		return o
 	}
 	if sub, ok := e.subDict(e.root, path); ok {
 		d := &Val{K: VDict, D: map[string]*Val{}}
@@ -462,6 +465,7 @@ func (e *E) evalName(n Name) Outcome {
 		for _, k := range ks {
 			e.evalCount[path+"."+k]++
 			o := e.evalSetting(sub[k])
+			e.logEval(path+"."+k, o)
 			if o.E != EOK {
 				bad = append(bad, o)
 				continue
@@ -791,13 +795,24 @@ func (e *E) modelOf(path string) (Outcome, bool) {
 	e.active = map[string]bool{}
 	e.depth = 0
 	e.evalCount[path]++
-	return e.evalSetting(s), true
+	o := e.evalSetting(s)
+	e.logEval(path, o)
+	return o, true
+}
+
+func (e *E) logEval(path string, o Outcome) {
+	k := "!" + o.E.String() + o.Msg
+	if o.E == EOK {
+		k = o.V.Canon()
+	}
+	e.evalLog[path] = append(e.evalLog[path], k)
 }
 
 // begin starts the model's view of one library call.
 func (e *E) begin(force bool) {
 	e.sawAbsorb = false
 	e.evalCount = map[string]int{}
+	e.evalLog = map[string][]string{}
 	e.force = force
 }
 
@@ -809,9 +824,19 @@ func (e *E) ambiguous() bool {
 	if !e.sawAbsorb {
 		return false
 	}
-	for _, n := range e.evalCount {
-		if n > 1 {
-			return true
+	// The library caches successful evaluations of a setting for the rest of the call
+	// (failures are not cached). The cache is invisible unless a setting that was evaluated
+	// successfully is needed again in a context where it evaluates differently.
+	for _, log := range e.evalLog {
+		for i, a := range log {
+			if strings.HasPrefix(a, "!") {
+				continue
+			}
+			for _, b := range log[i+1:] {
+				if a != b {
+					return true
+				}
+			}
 		}
 	}
 	return false
